@@ -5,10 +5,10 @@
     accessors answer for identifier x (resolved key, to_Z/to_E/to_element strict and not, to_A,
     to_mass as Decimal, to_period, to_group).  Strings are ASCII ([PyAscii]). *)
 From Coq Require Import ZArith List String Ascii Bool.
-Require Import QV.Common.Outcome QV.Common.PyAscii QV.Common.NearestDouble QV.Common.NearestDoubleNorm.
+Require Import QV.Common.Outcome QV.Common.PyAscii QV.Common.PyAsciiIntStr QV.Common.NearestDouble QV.Common.NearestDoubleNorm.
 Require Import QV.Gen.PTable QV.Gen.PeriodGroup QV.Gen.Srd144 QV.Model.PeriodicTable QV.Model.PeriodicTableFloat.
 Require Import QV.Proofs.PeriodicTableF1 QV.Proofs.PeriodicTableF2 QV.Proofs.PeriodicTableF3 QV.Proofs.PeriodicTable
-               QV.Proofs.PeriodicTableReject QV.Proofs.PeriodicTableMore.
+               QV.Proofs.PeriodicTableReject QV.Proofs.PeriodicTableMore QV.Proofs.PeriodicTableFloatStr QV.Proofs.PeriodicTableWave2.
 Import ListNotations.
 Open Scope Z_scope.
 
@@ -32,6 +32,19 @@ Theorem C01_alias_invariance :
     same_mod_case s (str_of_Z z) \/ same_mod_case s e \/ same_mod_case s n ->
     resolve (PInt z) b = Ok e /\ resolve (PStr s) b = Ok e /\ observe_spec (PStr s) = observe_spec (PInt z).
 Proof. exact alias_invariance. Qed.
+
+(** int(str(z)) = z for EVERY integer z whose decimal text has at most 4300 digits (CPython's limit), so the
+    "digit string of Z" alias form is the integer itself for all integers, inside and outside the table: it resolves
+    identically and every accessor answers the same. *)
+Theorem C01_int_of_str_roundtrip :
+  forall z, (N.of_nat (ndigits10 z) <= max_str_digits)%N -> pyint_str (str_of_Z z) = Ok z.
+Proof. exact pyint_str_of_Z. Qed.
+
+Theorem C01_digit_string_is_int :
+  forall z, (N.of_nat (ndigits10 z) <= max_str_digits)%N ->
+    resolve_eliso (PStr (str_of_Z z)) = resolve_eliso (PInt z) /\
+    observe_spec (PStr (str_of_Z z)) = observe_spec (PInt z).
+Proof. exact digit_string_is_int. Qed.
 
 (** Every nuclide label of the table, in any letter case, resolves to that label. *)
 Theorem C01_nuclide_labels_resolve :
@@ -82,15 +95,22 @@ Proof. exact default_rule. Qed.
     a NIST element or a NIST isotope name; the element columns are exactly dummy + NIST in order. *)
 Theorem C01_only_srd_species :
   forall x b k, resolve x b = Ok k ->
-    k = "X"%string \/ k = "X0"%string \/
+    In k dummy_labels \/
     exists e, In e srd_elements /\ (k = e_sym e \/ exists i, In i (e_isos e) /\ In k (i_labels (e_sym e) i)).
 Proof. intros x b k H. apply key_is_srd. eapply resolve_key, H. Qed.
 
 Theorem C01_element_columns_exact :
-  pt_E = "X"%string :: map e_sym srd_elements /\
-  Some pt_Z = option_map (cons 0) (opt_list (map e_Z srd_elements)) /\
-  Some pt_name = option_map (cons "Dummy"%string) (opt_list (map e_name srd_elements)).
+  pt_E = app (map (fun r => snd (fst r)) srd_dummy_elems) (map e_sym srd_elements) /\
+  Some pt_Z = option_map (app (map (fun r => fst (fst r)) srd_dummy_elems)) (opt_list (map e_Z srd_elements)) /\
+  Some pt_name = option_map (app (map snd srd_dummy_elems)) (opt_list (map e_name srd_elements)).
 Proof. exact element_columns_exact. Qed.
+
+(** The dummy rows are those the build script seeds its arrays with (translated from build_periodic_table.py). *)
+Theorem C01_dummy_rows_as_seeded :
+  forall r, In r srd_dummy_species ->
+    to_E (PStr (dm_EA r)) false = Ok (dm_EE r) /\ to_A (PStr (dm_EA r)) = Ok (dm_A r) /\
+    to_mass_str (PStr (dm_EA r)) = Ok (dm_mass r).
+Proof. exact dummy_species_faithful. Qed.
 
 (** Period and group are the position in the standard 18-column table (reference written from the noble-gas
     boundaries; f-block Z = 57-71, 89-103 has no group), for whatever identifier resolves to a real element. *)
@@ -102,6 +122,12 @@ Proof. exact period_group_accessor. Qed.
 Theorem C01_ladder_is_reference :
   forall z, 1 <= z <= 118 -> gen_period z = Some (ref_period z) /\ gen_group z = ref_group z.
 Proof. exact period_group_ref. Qed.
+
+(** The dummy row (Z = 0; it has no position in the standard table): period 1 — the first rung of the ladder — and no
+    group, for whatever identifier resolves to it. *)
+Theorem C01_dummy_period_group :
+  forall x, to_Z x false = Ok 0 -> to_period x = Ok (Some 1) /\ to_group x = Ok None.
+Proof. exact dummy_period_group. Qed.
 
 (** Strict mode accepts exactly the answers that are bare element symbols ... *)
 Theorem C01_strict_exact :
@@ -186,6 +212,24 @@ Proof.
   apply key_float_nearest; [eapply resolve_key, R|exact H].
 Qed.
 
+(** float(str) on the shipped string itself.  [float_of_decstr s] rounds the fraction n / 10^k that the digit string s
+    denotes (n = all its digits as one integer, k = digits after the point) directly; for ALL strings it equals
+    reading s as a Decimal and rounding that; the two models of to_mass(atom) coincide; and end to end: the float mass
+    is the nearest double (ties to even, 53-bit significand, normal exponent) of the fraction denoted by the shipped
+    mass string. *)
+Theorem C01_float_of_string_agrees :
+  forall s, float_of_decstr s = option_map nearest_double (dec_of_string s).
+Proof. exact float_of_decstr_agrees. Qed.
+
+Theorem C01_float_models_agree : forall x, to_mass_float_str x = to_mass_float x.
+Proof. exact to_mass_float_str_eq. Qed.
+
+Theorem C01_float_mass_from_shipped_string :
+  forall x m e, to_mass_float_str x = Ok (m, e) ->
+    exists s n d, to_mass_str x = Ok s /\ decstr_frac s = Some (n, d) /\ float_of_decstr s = Some (m, e) /\ 0 < d /\
+                  ((n = 0 /\ m = 0 /\ e = 0) \/ (0 < n /\ frac_nearest n d m e /\ -1074 <= e <= 970)).
+Proof. exact float_mass_from_string. Qed.
+
 (** No accessor ever raises anything but NotAnElementError (the table is internally consistent: every key has
     all its columns), for ALL identifiers. *)
 Theorem C01_fails_closed :
@@ -224,6 +268,10 @@ Example C01_ex_values :
   /\ resolve (PInt (-1)) false = Err NotAnElement /\ resolve (PStr "1.0") false = Err NotAnElement
   /\ resolve (PStr "h2") true = Err NotAnElement /\ resolve (PStr "h2") false = Ok "H2"%string.
 Proof. vm_compute. repeat split. Qed.
+Example C01_ex_wave2 :
+  decstr_frac "1.00782503223" = Some (100782503223, 10 ^ 11) /\ float_of_decstr "1.00782503223" = Some (4538840439605686, -52) /\
+  ndigits10 (-117) = 3%nat /\ str_of_Z (-117) = "-117"%string /\ to_Z (PStr "x0") false = Ok 0.
+Proof. vm_compute. repeat split. Qed.
 Example C01_ex_float :
   to_mass_float (PStr "h") = Ok (4538840439605686, -52) /\ to_mass_float (PStr "x") = Ok (0, 0) /\
   rne 5 2 = 2 /\ rne 7 2 = 4 /\ rne 10 4 = 2 /\ rne 11 4 = 3 /\
@@ -241,14 +289,18 @@ Proof. vm_compute. reflexivity. Qed.
 Print Assumptions C01_case_insensitive.
 Print Assumptions C01_case_variants.
 Print Assumptions C01_alias_invariance.
+Print Assumptions C01_int_of_str_roundtrip.
+Print Assumptions C01_digit_string_is_int.
 Print Assumptions C01_nuclide_labels_resolve.
 Print Assumptions C01_faithful_isotopes.
 Print Assumptions C01_faithful_bare_element.
 Print Assumptions C01_default_isotope_rule.
 Print Assumptions C01_only_srd_species.
 Print Assumptions C01_element_columns_exact.
+Print Assumptions C01_dummy_rows_as_seeded.
 Print Assumptions C01_period_group_standard.
 Print Assumptions C01_ladder_is_reference.
+Print Assumptions C01_dummy_period_group.
 Print Assumptions C01_strict_exact.
 Print Assumptions C01_strict_rejects_nuclides.
 Print Assumptions C01_resolve_sound.
@@ -261,6 +313,9 @@ Print Assumptions C01_decimal_strings_rejected.
 Print Assumptions C01_rne_nearest_even.
 Print Assumptions C01_nearest_double_correct.
 Print Assumptions C01_float_mass_is_nearest_double.
+Print Assumptions C01_float_of_string_agrees.
+Print Assumptions C01_float_models_agree.
+Print Assumptions C01_float_mass_from_shipped_string.
 Print Assumptions C01_fails_closed.
 Print Assumptions C01_observe_is_accessors.
 Print Assumptions C01_decimal_reading_agrees.
